@@ -536,6 +536,15 @@ class SimClock:
     def perf_counter(self):
         return self.time()
 
+    def time_ns(self):
+        return int(self.time() * 1e9)
+
+    def monotonic_ns(self):
+        return int(self.time() * 1e9)
+
+    def perf_counter_ns(self):
+        return int(self.time() * 1e9)
+
     def sleep(self, s):
         self.t += max(0.0, s)
         self.covered += max(0.0, s)
@@ -546,12 +555,64 @@ class SimClock:
         return getattr(_t, name)
 
 
+import time as _real_time
+
+_REAL_CLOCK_FUNCS = {
+    _real_time.time: "time", _real_time.monotonic: "monotonic", _real_time.perf_counter: "perf_counter",
+    _real_time.time_ns: "time_ns", _real_time.monotonic_ns: "monotonic_ns", _real_time.perf_counter_ns: "perf_counter_ns",
+}
+
+
 def install_clock(clock):
+    """
+    Every way whatshap code can read a clock goes to the simulated one: the `time` attribute of whatshap.timer
+    (the seam the code has), any other whatshap module that imported the time module, and any name in a whatshap
+    module that was bound to a clock function with `from time import ...`.
+    """
+    import datetime as _dt
+    import types
     import whatshap.timer as T
+
+    class SimDateTime(_dt.datetime):
+        @classmethod
+        def now(cls, tz=None):
+            return cls.fromtimestamp(clock.time(), tz)
+
+        @classmethod
+        def utcnow(cls):
+            return cls.utcfromtimestamp(clock.time())
+
+        @classmethod
+        def today(cls):
+            return cls.fromtimestamp(clock.time())
+
+    class SimDate(_dt.date):
+        @classmethod
+        def today(cls):
+            return cls.fromtimestamp(clock.time())
+
+    dt_shim = types.ModuleType("datetime")
+    dt_shim.__dict__.update({k: v for k, v in vars(_dt).items() if not k.startswith("__")})
+    dt_shim.datetime = SimDateTime
+    dt_shim.date = SimDate
 
     T.time = clock
     for name, mod in list(sys.modules.items()):
-        if name.startswith("whatshap.") and mod is not None and name != "whatshap.timer":
-            cur = getattr(mod, "time", None)
-            if cur is not None and getattr(cur, "__name__", None) == "time" and hasattr(cur, "monotonic"):
-                setattr(mod, "time", clock)
+        if not (name == "whatshap" or name.startswith("whatshap.")) or mod is None:
+            continue
+        for attr, val in list(vars(mod).items()):
+            if val is _real_time:
+                setattr(mod, attr, clock)
+            elif val is _dt:
+                setattr(mod, attr, dt_shim)
+            elif val is _dt.datetime:
+                setattr(mod, attr, SimDateTime)
+            elif val is _dt.date:
+                setattr(mod, attr, SimDate)
+            else:
+                try:
+                    kind = _REAL_CLOCK_FUNCS.get(val)
+                except TypeError:
+                    kind = None
+                if kind:
+                    setattr(mod, attr, getattr(clock, kind))
